@@ -174,7 +174,10 @@ func VerifC34Uint64() {
 // floats: the three specials symbolically selected, finite values from a fixed table (the Ryu / Eisel-Lemire code of strconv
 // is executed natively on concrete values; arbitrary finite floats are outside the solver's reach and stated so)
 func VerifC34Floats() {
-	specials := []float64{verifNaN(), verifInf(1), verifInf(-1), 0, 1, -1.5, 3.4028234663852886e38, 1e-45, 5e-324, 1.7976931348623157e308, 0.1, 16777217}
+	negZero := verifF64frombits(0x8000000000000000)
+	specials := []float64{verifNaN(), verifInf(1), verifInf(-1), 0, negZero, 1, -1, -1.5, 0.5, 3.4028234663852886e38, -3.4028234663852886e38, 1e-45, -1e-45, 5e-324, -5e-324,
+		1.7976931348623157e308, -1.7976931348623157e308, 2.2250738585072014e-308, 1.1754943508222875e-38, 0.1, -0.1, 16777216, 16777217, 9007199254740992, 9007199254740993,
+		1e21, 1e20, 1e-7, 123456789, 2147483648, -2147483648, 9223372036854775808, -9223372036854775808, 4294967296, 0.30000000000000004, 1e300}
 	f := specials[verifChoice(len(specials))]
 	verifCover("float")
 	w64 := basictl.JSONWriteFloat64(nil, f)
